@@ -202,7 +202,7 @@ def revise_namespaces(
         matched = any(references.match_namespace(namespace, pattern) for pattern in namespaces)
         deleted = is_deleted(raw_event)
         blockers = get_blockers(raw_event)
-        if deleted and blockers:
+        if deleted and blockers and raw_event['type'] != 'DELETED':
             for reason, message in blockers:
                 logger.debug(f"Namespace {namespace!r} termination pending: {reason}: {message}")
         elif deleted:
